@@ -191,8 +191,8 @@ fn expected_module(w: &World, i: usize, cfg: &Cfg) -> ExpModule {
         vec![("Es", false, false)]
       }
       Form::SideEffect => vec![("Es", false, true)],
-      Form::ImportType | Form::ExportType | Form::ImportTypeExpr => vec![("TsType", false, false)],
-      Form::Dynamic => vec![("Es", true, false)],
+      Form::ImportType | Form::ExportType | Form::ImportTypeExpr | Form::ImportTypeInNamespace => vec![("TsType", false, false)],
+      Form::Dynamic | Form::DynamicInNamespace => vec![("Es", true, false)],
       Form::StaticAndDynamic => vec![("Es", false, false), ("Es", true, false)],
       Form::DynamicAndStatic => vec![("Es", true, false), ("Es", false, false)],
       Form::ImportSource => vec![("EsSource", false, false)],
@@ -663,7 +663,7 @@ pub fn prop(tier: Tier) -> Prop {
       "the fourth option set has a resolver (bare-specifier map, resolve_types table for untyped modules), an npm resolver, jsr passthrough and one configured type import; the other three use default resolution".into(),
       "same-attribute proviso enforced by the generator (also through redirects, roots, types header, @ts-types pragma); at most one self-types / jsx pragma per module".into(),
       "worlds with loader redirect cycles are left to C14; JSON and unknown-media entries are checked for presence, not for kind (their acceptance depends on how they are first reached - see the C19 finding)".into(),
-      "forms: import, side-effect import, export * / named from, import/export type, dynamic import, static+dynamic in both orders, reference path/types, @ts-types, @ts-self-types, JSDoc import, import source, import = require, declare module, import type expression, @jsxImportSource, require()".into(),
+      "forms: import, side-effect import, export * / named from, import/export type, dynamic import, static+dynamic in both orders, reference path/types, @ts-types, @ts-self-types, JSDoc import, import source, import = require, declare module, import type expression, @jsxImportSource, require(), import type / dynamic import nested in a namespace".into(),
     ],
     parts,
     termination_property: false,
